@@ -686,3 +686,160 @@ Proof.
     destruct g as [ts top ed meta]. unfold role_alignments. apply get_alignments_strip.
     intros [ | | |]; simpl; congruence.
 Qed.
+
+(* ------------------------------------------------------------------ *)
+(** * Statements used verbatim by Properties/C05.v *)
+
+Theorem rearrange_content_pure : forall {K} (leb : K -> K -> bool) (key : option (str -> K))
+  (af : bool) (m : model) (t : tree) (g : graph),
+  interpret m t = Ok g ->
+  exists g', interpret m (rearrange leb key af t) = Ok g' /\
+             gtop g' = gtop g /\ gmeta g' = gmeta g /\
+             Permutation (triples g') (triples g).
+Proof.
+  intros K leb [k|] af m t g H; unfold rearrange.
+  - exact (rearrange_st_content leb (pure_key k) af tt m t g H).
+  - exact (rearrange_st_content unit_leb (pure_key (fun _ => tt)) af tt m t g H).
+Qed.
+
+Theorem rearrange_is_rn : forall {K} (leb : K -> K -> bool) (k : str -> K) af t,
+  troot (rearrange leb (Some k) af t) = rn leb k (if af then tree_vars (troot t) else []) (troot t) /\
+  troot (rearrange leb (@None (str -> K)) af t) =
+    rn unit_leb (fun _ => tt) (if af then tree_vars (troot t) else []) (troot t) /\
+  tmeta (rearrange leb (Some k) af t) = tmeta t.
+Proof.
+  intros K leb k af t. unfold rearrange, rearrange_st, rn.
+  destruct (rearrange_node leb (pure_key k) (if af then tree_vars (troot t) else []) tt (troot t)).
+  destruct (rearrange_node unit_leb (pure_key (fun _ : str => tt)) (if af then tree_vars (troot t) else []) tt (troot t)).
+  simpl. auto.
+Qed.
+
+(* lists of keys (the command line's composite key) compare lexicographically *)
+Lemma list_leb_total : forall {K} (leb : K -> K -> bool), total leb -> total (list_leb leb).
+Proof.
+  intros K leb T a. induction a as [|x a IH]; intros [|y b]; simpl; auto.
+  destruct (leb x y) eqn:E1; destruct (leb y x) eqn:E2; simpl;
+    try (left; reflexivity); try (right; reflexivity).
+  - apply IH.
+  - destruct (T x y); congruence.
+Qed.
+
+Lemma list_leb_transitive : forall {K} (leb : K -> K -> bool), transitive leb -> transitive (list_leb leb).
+Proof.
+  intros K leb T a. induction a as [|x a IH]; intros [|y b] [|z c] H1 H2; simpl in *;
+    try reflexivity; try discriminate.
+  apply andb_true_iff in H1. apply andb_true_iff in H2.
+  destruct H1 as [A1 B1]. destruct H2 as [A2 B2].
+  rewrite (T _ _ _ A1 A2). simpl.
+  destruct (leb z x) eqn:Ezx; [|reflexivity]. simpl.
+  rewrite (T _ _ _ Ezx A1) in B2. rewrite (T _ _ _ A2 Ezx) in B1. simpl in *.
+  apply IH with b; assumption.
+Qed.
+
+Theorem key_orders_total_preorders :
+  (total alnum_leb /\ transitive alnum_leb) /\
+  (total canonical_leb /\ transitive canonical_leb) /\
+  (total bool_leb /\ transitive bool_leb) /\ (total N.leb /\ transitive N.leb) /\
+  (forall K (leb : K -> K -> bool), total leb -> transitive leb ->
+     total (list_leb leb) /\ transitive (list_leb leb)).
+Proof.
+  repeat split.
+  - exact alnum_leb_total. - exact alnum_leb_transitive.
+  - exact canonical_leb_total. - exact canonical_leb_transitive.
+  - exact bool_leb_total. - exact bool_leb_transitive.
+  - exact N_leb_total. - exact N_leb_transitive.
+  - apply list_leb_total; assumption. - apply list_leb_transitive; assumption.
+Qed.
+
+(* ------------------------------------------------------------------ *)
+(** * Every node of the rearranged tree is sorted *)
+
+Section AllSorted.
+  Context {K : Type}.
+  Variable leb : K -> K -> bool.
+  Variable k : str -> K.
+  Variable vars : list atom.
+
+  Definition rest_sorted (bs : list branch) : Prop :=
+    StronglySorted (key_le (branch_leb leb) (bkey k vars)) (snd (split_concept bs)).
+
+  (* [all_sorted n]: at [n] and at every nested node (the target of a leading "/"
+     branch is not a place rearrange visits) the branches after a leading "/" are
+     sorted by (criterion1, key) *)
+  Fixpoint all_sorted (n : node) : Prop :=
+    match n with
+    | Node v bs =>
+        rest_sorted bs /\
+        (fix go (first : bool) (bs : list branch) : Prop :=
+           match bs with
+           | [] => True
+           | (r, t) :: bs' =>
+               (if first && str_eqb r SLASHS then True
+                else match t with TNode n' => all_sorted n' | TAtom _ => True end)
+               /\ go false bs'
+           end) true bs
+    end.
+
+  Definition nested_sorted (b : branch) : Prop :=
+    match snd b with TNode n' => all_sorted n' | TAtom _ => True end.
+  Fixpoint go_sorted (first : bool) (bs : list branch) : Prop :=
+    match bs with
+    | [] => True
+    | (r, t) :: bs' =>
+        (if first && str_eqb r SLASHS then True else nested_sorted (r, t)) /\ go_sorted false bs'
+    end.
+
+  Lemma all_sorted_eq : forall v bs, all_sorted (Node v bs) <-> rest_sorted bs /\ go_sorted true bs.
+  Proof.
+    intros v bs. simpl.
+    match goal with
+    | |- (_ /\ ?g true bs) <-> _ => assert (E : forall l f, g f l <-> go_sorted f l)
+    end.
+    { induction l as [|[r t] l IH]; intros f; [reflexivity|]. simpl. rewrite IH. reflexivity. }
+    rewrite E. reflexivity.
+  Qed.
+
+  Lemma go_sorted_forall : forall bs first, Forall nested_sorted bs -> go_sorted first bs.
+  Proof.
+    induction bs as [|[r t] bs IH]; intros first F; [exact I|].
+    inversion F; subst. simpl. split; [|apply IH; assumption].
+    destruct (first && str_eqb r SLASHS); [exact I | assumption].
+  Qed.
+
+  Lemma sorted_split : forall l, StronglySorted (key_le (branch_leb leb) (bkey k vars)) l ->
+    StronglySorted (key_le (branch_leb leb) (bkey k vars)) (snd (split_concept l)).
+  Proof.
+    intros [|[r t] l] S; [constructor|]. unfold split_concept.
+    destruct (str_eqb r SLASHS); simpl; [inversion S; assumption | exact S].
+  Qed.
+
+  Theorem rearrange_all_sorted : total leb -> transitive leb -> forall n, all_sorted (rn leb k vars n).
+  Proof.
+    intros Tot Tr. induction n as [v bs IHbs] using node_ind'.
+    rewrite rearrange_pure_eq.
+    set (rest := map (rtarget leb k vars) (snd (split_concept bs))).
+    set (srt := sorted_by (branch_leb leb) (bkey k vars) rest).
+    assert (SS : StronglySorted (key_le (branch_leb leb) (bkey k vars)) srt).
+    { apply sorted_by_sorted; [apply branch_leb_total | apply branch_leb_transitive]; assumption. }
+    assert (FR : Forall nested_sorted srt).
+    { apply Permutation_Forall with rest; [apply Permutation_sym, sorted_by_perm|].
+      unfold rest. apply Forall_forall. intros b Hb. apply in_map_iff in Hb.
+      destruct Hb as [[r t] [E Hin]]. subst b.
+      assert (Hin' : In (r, t) bs).
+      { destruct bs as [|[r0 t0] bs0]; [destruct Hin|]. unfold split_concept in Hin.
+        destruct (str_eqb r0 SLASHS); simpl in Hin; [right; exact Hin | exact Hin]. }
+      unfold rtarget, nested_sorted. simpl. destruct t as [a|n']; simpl; [exact I|].
+      rewrite Forall_forall in IHbs. apply (IHbs _ Hin'). }
+    apply all_sorted_eq.
+    destruct bs as [|[r t] bs0].
+    - simpl. split; [constructor | exact I].
+    - unfold split_concept at 1 2. unfold split_concept in rest.
+      destruct (str_eqb r SLASHS) eqn:SL; simpl fst.
+      + simpl app. split.
+        * unfold rest_sorted, split_concept. rewrite SL. simpl. exact SS.
+        * simpl. rewrite SL. split; [exact I|]. apply go_sorted_forall. exact FR.
+      + simpl app. split.
+        * unfold rest_sorted. apply sorted_split. exact SS.
+        * apply go_sorted_forall. exact FR.
+  Qed.
+End AllSorted.
